@@ -256,6 +256,15 @@ impl Prop for P06 {
             2 => json!(["-s", "30000000"]),
             _ => json!([]),
         };
+        // an environment that leaves (almost) nothing of a 128 KiB budget: xargs says so, or manages with what is left -
+        // it does not build command lines exec has no room for
+        if idx % 16 == 9 {
+            let d = *rng.pick(&[-400i64, 0, 300, 900, 1500, 2100, 2600, 4000]);
+            let total = 131072 - 2048 - 48 - d;          // bytes and pointers of four variables V000000=xxxx..
+            let size = (total / 4 - 17).max(1) as u64;
+            return json!({"mode": "run", "groups": [{"count": 400, "len": 3}], "opts": [], "env": {"count": 4, "size": size}, "rlim": 512 * 1024,
+                          "init": {"count": 0, "len": 0}});
+        }
         // -I: what has to fit is the argument after the substitution (one item used once, twice, with a prefix)
         if scenario % 7 == 5 || idx % 8 == 5 {
             let (len, pre, times) = *rng.pick(&[(131071u64, 1u64, 1u64), (131071, 0, 1), (131070, 1, 1), (70000, 0, 2), (65535, 1, 2), (65535, 0, 2), (65536, 0, 2), (43690, 0, 3), (43691, 0, 3), (100, 3, 4), (131072, 0, 1)]);
